@@ -98,6 +98,23 @@ def run(tier, seed, replay=None):
         for k, v in st.items():
             stats[k] = stats.get(k, 0) + v if isinstance(v, int) else v
 
+    # direct oracle for "with and without the memchr-accelerated search": the same cases on the two real builds
+    mc_dir = os.path.join(BUILD, "c03_memchr")
+    os.makedirs(mc_dir, exist_ok=True)
+    gen = "small 2" if tier == "quick" else "small 3"
+    rnd = "random 20000 %d 7" % (seed * 100 + 33)
+    run_pipeline(["(%s %s; %s %s) > %s/with.txt" % (hbin, gen, hbin, rnd, mc_dir), "(%s %s; %s %s) > %s/without.txt" % (hbin_nm, gen, hbin_nm, rnd, mc_dir)], timeout=1200)
+    try:
+        a = open(os.path.join(mc_dir, "with.txt")).read().split("\n")
+        b = open(os.path.join(mc_dir, "without.txt")).read().split("\n")
+        diffs = [(x, y) for x, y in zip(a, b) if x != y and not x.startswith("#") and "\t" in x and "\t" in y and x.split("\t")[0] == y.split("\t")[0]]
+        stats["memchr_pairs_compared"] = min(len(a), len(b))
+        if len(a) != len(b):
+            mism.append({"kind": "harness", "case": "memchr comparison", "impl": "the two builds produced different numbers of cases", "expected": "%d vs %d" % (len(a), len(b))})
+        for x, y in diffs[:200]:
+            mism.append({"kind": "spec", "case": x.split("\t")[0], "impl": "memchr build and no-memchr build differ: with[%s] without[%s]" % (x.split("\t")[1][:300], y.split("\t")[1][:300]), "expected": "identical outcome"})
+    except FileNotFoundError:
+        mism.append({"kind": "harness", "case": "memchr comparison", "impl": "output missing", "expected": ""})
     spec_m = [m for m in mism if m["kind"] == "spec"]
     tag_m = [m for m in spec_m if only_tag_differs(m["impl"])]
     real_m = [m for m in spec_m if not only_tag_differs(m["impl"])]
